@@ -81,15 +81,26 @@ OneSectionPerTransceiver(d, trs) ==
 SecOf(d, tr) == d.sections[CHOOSE i \in MediaIdx(d) : d.sections[i].mid = tr.mid]
 KindMidDirection(d, tr) == SecOf(d, tr).kind = tr.kind /\ SecOf(d, tr).dirs = <<tr.dir>>
 MsidOK(d, tr) == (tr.sending /\ Sends(tr.dir)) => (tr.stream \o " " \o tr.track) \in Range(SecOf(d, tr).msid)
-EncSsrcs(tr) == {x \in {tr.ssrc, tr.rtx, tr.fec} : x # "0"}
+\* every encoding of the sender (a simulcast sender has several, told apart by their rid)
+EncSsrcs(tr) == {x \in UNION {{tr.encs[i].ssrc, tr.encs[i].rtx, tr.encs[i].fec} : i \in 1..Len(tr.encs)} : x # "0"}
 HasGroup(s, sem, a, b) == \E i \in 1..Len(s.groups) : s.groups[i].sem = sem /\ s.groups[i].ssrcs = <<a, b>>
 SsrcsOK(d, tr) ==
   LET s == SecOf(d, tr) IN
   /\ Range(s.ssrcs) \subseteq EncSsrcs(tr)
   /\ (tr.sending /\ Sends(tr.dir)) =>
         /\ EncSsrcs(tr) \subseteq Range(s.ssrcs)
-        /\ (tr.rtx # "0" => HasGroup(s, "FID", tr.ssrc, tr.rtx))
-        /\ (tr.fec # "0" => HasGroup(s, "FEC-FR", tr.ssrc, tr.fec))
+        /\ \A i \in 1..Len(tr.encs) :
+              /\ (tr.encs[i].rtx # "0" => HasGroup(s, "FID", tr.encs[i].ssrc, tr.encs[i].rtx))
+              /\ (tr.encs[i].fec # "0" => HasGroup(s, "FEC-FR", tr.encs[i].ssrc, tr.encs[i].fec))
+\* a simulcast sender announces its encodings: one a=rid:<rid> send per encoding, in order, and a=simulcast:send
+JoinRids(encs) == LET RECURSIVE J(_) J(i) == IF i > Len(encs) THEN "" ELSE (IF i = 1 THEN "" ELSE ";") \o encs[i].rid \o J(i + 1) IN J(1)
+RidsOK(d, tr) ==
+  LET s == SecOf(d, tr)          \* ridsSend / simSend: the "send" part of the section's rid and simulcast attributes
+      own == {tr.encs[i].rid : i \in 1..Len(tr.encs)} IN
+  /\ Range(s.ridsSend) \subseteq own                  \* nothing but the sender's own encodings is announced for sending
+  /\ (tr.sending /\ Sends(tr.dir) /\ Len(tr.encs) > 1) =>
+        /\ s.ridsSend = [i \in 1..Len(tr.encs) |-> tr.encs[i].rid]
+        /\ s.simSend = <<JoinRids(tr.encs)>>
 HasApplication(d) == \E i \in 1..Len(d.sections) : d.sections[i].kind = "application"
 
 \* ---- C16 (answer section a versus the offer section o at the same index)
